@@ -328,7 +328,7 @@ def run_task(task):
                         _do(acc, {'entry': 'ndarray', 'tables': [{'name': 'abc', 'cols': cols, 'rows': rows}]}, d)
         elif L == 'L3':
             sel = task['sel']
-            hdrs = [[]]
+            hdrs = [[], [['struct', 'abc']], [['enum', 42], ['k1', 'x y']], [['k0', 'v'], ['STRUCT', 'u'], ['Enum', 2.5]]]
             for n in range(1, task['maxhdr'] + 1):
                 hdrs += [[['k%d' % i, HDR_VALUES[v]] for i, v in enumerate(p)]
                          for p in itertools.permutations(range(len(HDR_VALUES)), n)]
